@@ -293,6 +293,22 @@ def unit_anysize(model, n):
     return anysize.c05(model, n)
 
 
+def unit_gauss_contracts():
+    """premises of this property's proofs: the contract clauses of v and vt that the obligations above
+    assume are verified on the real bodies (the C17 units, re-run here under this property's name, so
+    that a change inside a callee that breaks a clause this property relies on is reported here too)"""
+    from . import c17
+    out = []
+    for u in ('unit_v', 'unit_vt', 'unit_contract_v_vt'):
+        for r in getattr(c17, u)():
+            if r["kind"] == "canary" or not any(k in r["name"] for k in ('/v/positive', '/vt/contract/', '/contract/')):
+                continue          # only the clauses this property's proofs rely on
+            r = dict(r)
+            r["name"] = r["name"].replace("C17/", "C05/helper/")
+            out.append(r)
+    return out
+
+
 def units(tier):
     us = [("unit_lemmas", ())]
     nmax = 4 if tier == "quick" else 8
@@ -314,6 +330,7 @@ def units(tier):
             if m in ("PlackettLuce", "BradleyTerryFull", "ThurstoneMostellerFull"):
                 us.append(("unit_swap_up", (m, n)))
             us.append(("unit_identical", (m, n)))
+    us.insert(0, ("unit_gauss_contracts", ()))
     return us
 
 
@@ -336,5 +353,5 @@ def main(tier, seed):
         ],
         explanation=("Per shape the mu results of the real _compute are proved equal (exact normal forms) to the published update mu + share*Omega_i, and the same-direction/proportionality identity is proved on the code's own terms. The sign clauses are then proved for Omega_i of that update: first/last-alone by a structural sign proof (sums from addends, products from factors, leaves by z3 with the relevant lemma instances); "
                      "two-team loss<=draw<=win, prior between loss and win, draw direction; swap-up; identical teams ordered by place - by the exact normal form of the difference being term-wise non-negative or by z3 over the canonical atoms, with exp-monotonicity instances and the v/vt contract clauses."),
-        shapes=sorted({(str(u[1][1]) if u[0] != "unit_anysize" else f"n={u[1][1]}, every team size") for u in units(tier) if u[0] != "unit_lemmas"}),
+        shapes=sorted({(str(u[1][1]) if u[0] != "unit_anysize" else f"n={u[1][1]}, every team size") for u in units(tier) if len(u[1]) > 1}),
     )
